@@ -43,7 +43,7 @@ impl FixtureDatabase {
             }
         }
         debug!("Analyzing imported module: {:?}", module_path);
-        self.analyze_file_internal(module_path.to_path_buf(), &content, false);
+        self.analyze_file_from_disk(module_path.to_path_buf(), &content, false);
         true
     }
 
@@ -89,16 +89,71 @@ impl FixtureDatabase {
         }
     }
 
-    /// Analyze a file without cleaning up previous definitions.
-    /// Used during initial workspace scan when we know the database is empty.
-    pub(crate) fn analyze_file_fresh(&self, file_path: PathBuf, content: &str) {
-        self.analyze_file_internal(file_path, content, false);
+    /// Analysis requested by the workspace scan, with text it read from disk; without
+    /// cleanup of previous definitions during the initial walk, when the file is new.
+    /// A document that is open in the editor is analysed from its buffer, never from disk.
+    pub(crate) fn analyze_file_from_disk(
+        &self,
+        file_path: PathBuf,
+        content: &str,
+        cleanup_previous: bool,
+    ) {
+        self.analyze_file_serialised(file_path, content, cleanup_previous, true);
+    }
+
+    /// Re-analyse a file with the text that is cached for it (else the file on disk), for
+    /// instance to refresh the plugin flag of its fixtures. The text is taken while the
+    /// file's analysis lock is held, so a newer buffer is never replaced by an older text.
+    pub(crate) fn reanalyze_cached_file(&self, file_path: &Path) {
+        let file_path = self.get_canonical_path(file_path.to_path_buf());
+        let lock = self.analysis_lock(&file_path);
+        let _guard = lock.lock().unwrap();
+        if let Some(content) = self.get_file_content(&file_path) {
+            self.analyze_file_unlocked(file_path, &content, true);
+        }
     }
 
     /// Internal file analysis with optional cleanup of previous definitions
     fn analyze_file_internal(&self, file_path: PathBuf, content: &str, cleanup_previous: bool) {
+        self.analyze_file_serialised(file_path, content, cleanup_previous, false);
+    }
+
+    /// Analyses of one file never interleave, and the editor's buffer wins over the file on
+    /// disk whatever the relative timing of the notification and the scan.
+    fn analyze_file_serialised(
+        &self,
+        file_path: PathBuf,
+        content: &str,
+        cleanup_previous: bool,
+        from_disk: bool,
+    ) {
         // Use cached canonical path to avoid repeated filesystem calls
         let file_path = self.get_canonical_path(file_path);
+
+        let lock = self.analysis_lock(&file_path);
+        let _guard = lock.lock().unwrap();
+
+        if from_disk && self.open_documents.contains_key(&file_path) {
+            let buffer = self
+                .file_cache
+                .get(&file_path)
+                .map(|cached| std::sync::Arc::clone(cached.value()));
+            match buffer {
+                // A re-analysis that refreshes flags (plugin phases): use the buffer
+                Some(buffer) if cleanup_previous => {
+                    self.analyze_file_unlocked(file_path, &buffer, true);
+                }
+                // The plain walk: the analysis of the buffer stands (or is about to come)
+                _ => {}
+            }
+            return;
+        }
+
+        self.analyze_file_unlocked(file_path, content, cleanup_previous);
+    }
+
+    /// The analysis itself; `file_path` is canonical and its analysis lock is held.
+    fn analyze_file_unlocked(&self, file_path: PathBuf, content: &str, cleanup_previous: bool) {
 
         debug!("Analyzing file: {:?}", file_path);
 
